@@ -345,6 +345,14 @@ class C04(SimCheck):
         cfg = scn["cfg"]
         cfg["duration"] = r.choice([None, 0, 512, 1024, 1536, 2048, 3072, 4096, 5000, 8192])
         cfg["maxIter"] = r.choice([None, None, 0, 1, 2, 7, 25, 60])
+        if r.random() < 0.3:
+            # far regime: the whole timeline sits around 2^31 ticks (24 simulated days); bounds that
+            # differ from event times by one tick are then relatively 1e-9 apart
+            base = 2 ** 31
+            simgen.set_handler(cfg, "mobility", False)
+            scn["profile"]["base"] = base
+            cfg["duration"] = base + r.choice([0, 1, 511, 512, 1023, 1024, 1025, 2047, 2048, 3071, 3072, 4096])
+            cfg["maxIter"] = r.choice([None, None, 40])
         if cfg["hasMob"] and cfg["duration"] is None and cfg["maxIter"] is None:
             cfg["maxIter"] = 40
         if scn["drive"]["mode"] == "steps":
